@@ -76,7 +76,7 @@ Fixpoint ianc_f (fuel : nat) (ig : graph) (j : iface) : list iface :=
        | 0 => []
        | S f => flat_map (ianc_f f ig) (bases ig j)
        end.
-Definition ianc (E : env) (j : iface) : list iface := ianc_f (length (e_ig E)) (e_ig E) j.
+Definition ianc (E : env) (j : iface) : list iface := ianc_f (S (length (e_ig E))) (e_ig E) j.
 
 (* a.isOrExtends(b) / a.extends(b) (strict) between interfaces *)
 Definition i_isOrExtends (E : env) (a b : iface) : bool := Nat.eqb b iroot || mem b (ianc E a).
@@ -409,11 +409,27 @@ Fixpoint run (uc : bool) (E : env) (st : state) (ops : list op) : list (list nat
   | o :: ops' => let '(st', a) := step uc E st o in a :: run uc E st' ops'
   end.
 
+(* the content of what providedBy / implementedBy answers (None = an exception) *)
+Definition answer (uc : bool) (E : env) (st : state) (a : arg) : option (list iface) :=
+  let '(st', r) := providedBy uc E st a in option_map (flat_ref E st') r.
+Definition answer_implementedBy (uc : bool) (E : env) (st : state) (a : arg) : option (list iface) :=
+  let '(st', r) := implementedBy uc E st a in option_map (flat_ref E st') r.
+
+(* the same state with every _super_cache deleted *)
+Definition clear_caches (st : state) : state := mkSt (st_decl st) (st_synth st) [] (st_regs st).
+
+Definition is_declaration (o : op) : bool :=
+  match o with OImplements _ _ | OOnly _ _ | OFirst _ _ => true | _ => false end.
+
 (* ---- well-formedness of a world, as a boolean: class 0 is ``object`` with no bases, every
    other class lists at least one base, bases come earlier (so the graph is acyclic; [rk] is
-   the identity), base lists do not repeat *)
+   the identity), base lists do not repeat; the same for the interface graph *)
 Definition env_ok (E : env) : bool :=
   wfb (fun x => x) (e_cg E)
   && match e_cg E with (0, []) :: _ => true | _ => false end
   && forallb (fun e => Nat.eqb (fst e) 0 || negb (is_nil (snd e))) (e_cg E)
-  && lspec_eqb (map fst (e_cg E)) (seq 0 (length (e_cg E))).
+  && lspec_eqb (map fst (e_cg E)) (seq 0 (length (e_cg E)))
+  (* interfaces: bases come earlier, numbers stay within the table (Interface, number 0, has no
+     entry: it is implied everywhere) *)
+  && wfb (fun x => x) (e_ig E)
+  && forallb (fun e => Nat.leb (fst e) (length (e_ig E))) (e_ig E).
